@@ -421,3 +421,5 @@ _quick("C11", "C11_lateack", "key of capacity 5 with a plain holder; ack-require
 _quick("C15", "C17_recycle", "(also under C17) 5..8 keys with values on a fast key table of 4 slots (some parked in the long-expiry table), all released, wheel swept, then 24 fresh keys one after the other: a key that was never given a value is never shown one (no value left on a key manager recycled through the pool)", ["-witness", "1"])
 
 _quick("C16", "C16_rotate", "history of C16_whole; after the compaction has chosen its inputs and opened rewrite.aof.tmp (schedule point at its time.Now()) the server goes on: nothing / a new persisted hold and a log rotation / the same plus a persisted release in the new current file; the compaction finishes; a restart recovers exactly the live holds", [], reach=["end", "rotated"], native=False)
+
+_quick("C18", "C18_handle", "a connection's whole life through the real Server.handle (protocol sniffing in checkProtocol, Process loop, close): text or binary client, first packet a will (LOCK ... WILL) or a PING, then nothing / a second will / a PING, then EOF; the server's writes fail from the first, from the second, or never: every registered will has run exactly once, the connection is closed, its protocol session is gone", ["-witness", "1"], reach=["end", "handled"])
